@@ -158,6 +158,7 @@ type run struct {
 	loadOn    bool
 	idNum     int // key number of the device's current static key: 1 = the configured one, 8 = the all-zero private key
 	confirmed map[*ref.Session]bool
+	lastCons  map[int]time.Time // when the device last consumed an initiation of ref peer i (cleared by a handshake-time shift)
 }
 
 func keyNum(i int) int {
@@ -194,7 +195,7 @@ func newRun() (*run, error) {
 	r := &run{ipid: map[netip.Addr]int{}, bodies: map[string]int{}, cookies: map[int][]gotCookie{},
 		devInit: map[int]*devMsg{}, devMsgs: map[int][]devMsg{}, maxTs: map[int]uint64{}, consumed: map[int][]*refInit{},
 		pending: map[int]*refInit{}, lastResp: map[int][]byte{}, lastHid: map[int]int{}, ctr: map[int]uint64{},
-		lastTr: map[int][]byte{}, lim: map[int]int{}, idNum: 1, confirmed: map[*ref.Session]bool{}}
+		lastTr: map[int][]byte{}, lim: map[int]int{}, idNum: 1, confirmed: map[*ref.Session]bool{}, lastCons: map[int]time.Time{}}
 	for _, a := range addrTable {
 		ap := netip.MustParseAddrPort(a)
 		r.addrs = append(r.addrs, ap)
@@ -730,6 +731,7 @@ func (r *run) describe(sent []sim.Sent, off *offender, bodyOracle *int, hidOracl
 								r.maxTs[pidx] = ri.ts
 							}
 							r.consumed[pidx] = append(r.consumed[pidx], ri)
+							r.lastCons[pidx] = time.Now()
 						}
 					}
 				}
@@ -890,6 +892,7 @@ func (r *run) exec(pl Plan) (rec StepRec, settled bool) {
 		rec.Obs, rec.Outs, rec.Chg, settled = obs, txt, chg, out.Settled
 	case "shifths":
 		p := r.peers[pl.Peer%len(r.peers)]
+		delete(r.lastCons, pl.Peer%len(r.peers))
 		r.w.Dev.VerifShiftHandshakeTimes(p.NoisePub(), d)
 		out := r.w.Take()
 		obs, txt, chg := r.observe(out, nil, &body, &hid)
@@ -1022,6 +1025,18 @@ func runCase(gen string, plan []Plan) Case {
 					break
 				}
 				continue
+			}
+			// the 20 ms flood gap after a consumed initiation is C06's subject, not modelled here: an initiation of
+			// the same peer that would fall into it (plans shrunk or replayed by hand) is preceded by a shift
+			if pl.Op == "msg" && pl.Typ == "init" && pl.Peer != 9 {
+				if lc, ok2 := r.lastCons[pl.Peer%len(r.peers)]; ok2 && time.Since(lc) < 200*time.Millisecond {
+					rec, settled := r.exec(Plan{Op: "shifths", Peer: pl.Peer % len(r.peers), D: 1})
+					c.Steps = append(c.Steps, rec)
+					if !settled {
+						ok = false
+						break
+					}
+				}
 			}
 			rec, settled := r.exec(pl)
 			c.Steps = append(c.Steps, rec)
@@ -1233,6 +1248,42 @@ func genForgedTransport(r *mrand.Rand) []Plan {
 	return p
 }
 
+// a recorded, already consumed initiation of a peer is replayed (from strangers' addresses, under load with
+// valid MAC2 from the strangers' own cookies) IMMEDIATELY before the peer's genuine fresh initiation: the replay
+// must leave no trace — in particular the peer's message is processed (response), not dropped
+func genReplayThenFresh(r *mrand.Rand) []Plan {
+	pi := r.Intn(3)
+	home := r.Intn(len(addrTable))
+	load := r.Intn(3) != 0
+	var p []Plan
+	if load {
+		p = append(p, Plan{Op: "load", On: true}, msg("init", pi, home, "ok", "zero", "good"), msg("init", pi, home, "ok", "cookie", "resend"))
+	} else {
+		p = append(p, msg("init", pi, home, "ok", "zero", "good"))
+	}
+	rounds := 1 + r.Intn(3)
+	for k := 0; k < rounds; k++ {
+		// the last consumption is long ago; then replays, then at once the genuine message
+		p = append(p, Plan{Op: "shifths", Peer: pi, D: 1})
+		nrep := 1 + r.Intn(3)
+		for i := 0; i < nrep; i++ {
+			x := (home + 1 + r.Intn(len(addrTable)-1)) % len(addrTable)
+			if load {
+				p = append(p, msg("init", pi, x, "ok", "zero", "replay"), msg("init", pi, x, "ok", "cookie", "replay"))
+			} else {
+				p = append(p, msg("init", pi, x, "ok", []string{"zero", "junk"}[r.Intn(2)], "replay"))
+			}
+		}
+		if load {
+			p = append(p, msg("init", pi, home, "ok", "cookie", "good"))
+		} else {
+			p = append(p, msg("init", pi, home, "ok", "zero", "good"))
+		}
+	}
+	p = append(p, msg("transport", pi, home, "", "", "good"))
+	return p
+}
+
 func genNoLoadAuthFail(r *mrand.Rand) []Plan {
 	var p []Plan
 	pi := r.Intn(3)
@@ -1425,6 +1476,20 @@ func forcedLoadExpires() Case {
 		msg("init", 1, 4, "ok", "zero", "corrupt"), msg("init", 9, 4, "ok", "zero", "good"),
 		{Op: "shifths", Peer: 0, D: 1}, msg("init", 0, 0, "ok", "junk", "resend"), msg("transport", 0, 0, "", "", "good")}
 	return runCase("fixed-forced-load-expires", p)
+}
+
+// the device holds a cookie and stamps MAC2; the reply to its LATEST message must still be taken (and used), a
+// reply bound to an earlier message must not
+func secondCookie() []Case {
+	var cs []Case
+	for pi := 0; pi < 2; pi++ {
+		p := []Plan{{Op: "tun", Peer: pi}, msg("cookie", pi, pi, "", "", "good"), {Op: "shifths", Peer: pi, D: 6}, {Op: "tun", Peer: pi},
+			msg("cookie", pi, 4, "", "", "good"), {Op: "shifths", Peer: pi, D: 6}, {Op: "tun", Peer: pi},
+			msg("cookie", pi, 5, "", "", "oldad"), {Op: "shifths", Peer: pi, D: 6}, {Op: "tun", Peer: pi},
+			msg("cookie", pi, pi, "", "", "wrongad"), msg("cookie", pi, pi, "", "", "good"), {Op: "shifths", Peer: pi, D: 6}, {Op: "tun", Peer: pi}}
+		cs = append(cs, runCase(fmt.Sprintf("fixed-second-cookie-%d", pi), p))
+	}
+	return cs
 }
 
 func fixedCases() []Case {
@@ -2069,12 +2134,13 @@ func main() {
 		}
 		cases = append(cases, fixedCases()...)
 		cases = append(cases, forcedLoadExpires())
+		cases = append(cases, secondCookie()...)
 		r := mrand.New(mrand.NewSource(*seed))
 		gens := []struct {
 			name string
 			f    func(*mrand.Rand) []Plan
 			w    int
-		}{{"stranger", genStranger, 3}, {"reserved-bytes", genReserved, 3}, {"identity", genIdentity, 3}, {"forged-transport", genForgedTransport, 3}, {"noload-authfail", genNoLoadAuthFail, 2}, {"roundtrip", genRoundTrip, 5},
+		}{{"stranger", genStranger, 3}, {"reserved-bytes", genReserved, 3}, {"identity", genIdentity, 3}, {"forged-transport", genForgedTransport, 3}, {"replay-then-fresh", genReplayThenFresh, 3}, {"noload-authfail", genNoLoadAuthFail, 2}, {"roundtrip", genRoundTrip, 5},
 			{"load-response", genLoadResponse, 2}, {"device-gets-cookie", genDeviceGetsCookie, 3}, {"ratelimit", genRateLimit, 1}, {"mix", genMix, 4}}
 		tot := 0
 		for _, g := range gens {
